@@ -74,8 +74,8 @@ type resObs struct {
 var (
 	poolGroup = []string{"", "core", gwGroup, "apps"}
 	poolKind  = []string{"Service", "Secret", "Gateway", "HTTPRoute", "GRPCRoute", "TLSRoute"}
-	poolNS    = []string{"a", "b", "c"}
-	poolName  = []string{"", "x", "y", "xy", "x-a"} // "x" is a proper prefix of "xy" and "x-a"; "xy"/"x-a" have equal length
+	poolNS    = []string{"a", "b", "c", "a-b"}             // "a-b" + "-" + "x" == "a" + "-" + "b-x"
+	poolName  = []string{"", "x", "y", "xy", "x-a", "b-x"} // "x" is a proper prefix of "xy" and "x-a"; "xy"/"x-a" have equal length
 )
 
 func genGrants(r *rng.R, n int) (map[types.NamespacedName]*v1beta1.ReferenceGrant, []FGrant) {
@@ -164,6 +164,12 @@ func runRes(r *rng.R, n int) {
 							}
 						}
 					}
+					if t.Name != nil && cr.Chance(12, 100) {
+						// another (namespace, name) with the same "namespace-name" concatenation: must not be permitted
+						if n2, name2, ok := hyphenAligned(g.NS, *t.Name); ok {
+							to.Namespace, to.Name = n2, name2
+						}
+					}
 					switch cr.Intn(12) {
 					case 0:
 						from.Group = rng.Pick(cr, poolGroup)
@@ -216,6 +222,8 @@ func runVal(r *rng.R, n int) {
 	for i := 0; i < n; i++ {
 		cr := r.Fork()
 		m, flat := genGrants(cr, cr.Intn(4))
+		// a (namespace, name) with the same "namespace-name" concatenation as the biased grant's target, if there is one
+		alNS, alName, alOK := "", "", false
 		// bias: make many grants relevant
 		if cr.Chance(60, 100) {
 			g := &v1beta1.ReferenceGrant{ObjectMeta: p.Meta(rng.Pick(cr, poolNS), "gx", 0)}
@@ -227,14 +235,21 @@ func runVal(r *rng.R, n int) {
 			g.Spec.To = []v1beta1.ReferenceGrantTo{t}
 			m[client.ObjectKeyFromObject(g)] = g
 			flat = append(flat, FlatGrant(g))
+			if t.Name != nil {
+				alNS, alName, alOK = hyphenAligned(g.Namespace, string(*t.Name))
+			}
 		}
 		in := valIn{Grants: flat, NS: rng.Pick(cr, poolNS), Certs: []FCert{}, Secrets: []string{}}
 		var obs valObs
 		if cr.Chance(70, 100) {
 			in.Kind = rng.Pick(cr, []string{"HTTPRoute", "GRPCRoute", "TLSRoute"})
-			b := gatewayv1.BackendRef{BackendObjectReference: gatewayv1.BackendObjectReference{Name: gatewayv1.ObjectName(rng.Pick(cr, []string{"x", "y", "xy", "x-a"}))}}
+			b := gatewayv1.BackendRef{BackendObjectReference: gatewayv1.BackendObjectReference{Name: gatewayv1.ObjectName(rng.Pick(cr, []string{"x", "y", "xy", "x-a", "b-x"}))}}
 			if cr.Chance(75, 100) {
 				b.Namespace = ptr(gatewayv1.Namespace(rng.Pick(cr, poolNS)))
+			}
+			if alOK && cr.Chance(25, 100) {
+				b.Namespace = ptr(gatewayv1.Namespace(alNS))
+				b.Name = gatewayv1.ObjectName(alName)
 			}
 			if cr.Chance(40, 100) {
 				b.Group = ptr(gatewayv1.Group(rng.Pick(cr, []string{"", "core", "core", "apps"})))
@@ -260,7 +275,7 @@ func runVal(r *rng.R, n int) {
 			in.Kind = "Gateway"
 			secrets := map[types.NamespacedName]*apiv1.Secret{}
 			for _, ns := range poolNS {
-				for _, nm := range []string{"x", "y", "xy", "x-a"} {
+				for _, nm := range []string{"x", "y", "xy", "x-a", "b-x"} {
 					if cr.Chance(80, 100) {
 						secrets[types.NamespacedName{Namespace: ns, Name: nm}] = p.TLSSecret(ns, nm, 1)
 						in.Secrets = append(in.Secrets, ns+"/"+nm)
@@ -270,9 +285,17 @@ func runVal(r *rng.R, n int) {
 			var refs []gatewayv1.SecretObjectReference
 			nc := rng.Pick(cr, []int{1, 1, 1, 2})
 			for k := 0; k < nc; k++ {
-				c := gatewayv1.SecretObjectReference{Name: gatewayv1.ObjectName(rng.Pick(cr, []string{"x", "y", "xy", "x-a"}))}
+				c := gatewayv1.SecretObjectReference{Name: gatewayv1.ObjectName(rng.Pick(cr, []string{"x", "y", "xy", "x-a", "b-x"}))}
 				if cr.Chance(75, 100) {
 					c.Namespace = ptr(gatewayv1.Namespace(rng.Pick(cr, poolNS)))
+				}
+				if alOK && cr.Chance(25, 100) {
+					c.Namespace = ptr(gatewayv1.Namespace(alNS))
+					c.Name = gatewayv1.ObjectName(alName)
+					if _, ok := secrets[types.NamespacedName{Namespace: alNS, Name: alName}]; !ok {
+						secrets[types.NamespacedName{Namespace: alNS, Name: alName}] = p.TLSSecret(alNS, alName, 1)
+						in.Secrets = append(in.Secrets, alNS+"/"+alName)
+					}
 				}
 				refs = append(refs, c)
 				in.Certs = append(in.Certs, FCert{NS: sp(c.Namespace), Name: string(c.Name)})
